@@ -70,8 +70,14 @@ def step(self):
 '''
 
 
-def step_rule(ctx: Ctx, rid: str) -> None:
+def step_rule(ctx: Ctx, rid: str, raises_only: bool = False) -> None:
     m = ctx.model
+    if raises_only:
+        r = ctx.rule(rid, "Pipeline.step wraps every stage failure (normal form of its raise effects and their conditions vs the reference)")
+        compare(r, m, m.method("Pipeline", "step"), STEP_REF, "Pipeline.step", keep=lambda k, t: k == "raise", returns=False,
+                what="a failing stage is reported as InstructionExecutionException(address, text of the stage's input latch, message) for every stage "
+                     "behind the first and every address (0 included); only a failure of the first stage is re-raised as it is")
+        return
     r = ctx.rule(rid, "Pipeline.step is the confirmed controller (normal form of all effects and their conditions vs the reference)")
     compare(r, m, m.method("Pipeline", "step"), STEP_REF, "Pipeline.step",
             what="the pipeline controller (dispatch / stall pick-up / flush / stall count-down)")
